@@ -53,6 +53,7 @@ var Checks = map[string]func(env *Env, rep *Report){
 	"C10": RunC10,
 	"C11": RunC11,
 	"C12": RunC12,
+	"C13": RunC13,
 	"C14": RunC14,
 	"C15": RunC15,
 	"C09": RunC09,
